@@ -494,8 +494,8 @@ fn run<T: TestElem>(tier: Tier, shard: usize, n: usize, tag: &str) -> Report {
 	let mut rep = Report::new();
 	let sc = uni::Scratch::new("c08");
 	let b = match tier {
-		Tier::Quick => Bounds { max_depth: 4, max_leaves: 6, max_removals: 2, max_appends: 2, two_block_units: true },
-		Tier::Thorough => Bounds { max_depth: 4, max_leaves: 9, max_removals: 2, max_appends: 3, two_block_units: true },
+		Tier::Quick => Bounds { max_depth: 3, max_leaves: 9, max_removals: 2, max_appends: 3, two_block_units: true },
+		Tier::Thorough => Bounds { max_depth: 4, max_leaves: 7, max_removals: 2, max_appends: 2, two_block_units: true },
 	};
 	rep.extra.insert("bound_depth_units".into(), json!(b.max_depth));
 	rep.extra.insert("bound_leaves".into(), json!(b.max_leaves));
@@ -522,7 +522,7 @@ impl Engine for C08 {
 			rule: "explicit-state exploration (DFS over snapshots of the backend directory, memoised on reference state + file contents + remaining depth) of the real prunable PMMRBackend for a fixed-size and a variable-size element type. Alphabet: a unit of work = optional rewind to any earlier block boundary not below the last compaction cutoff (block by block, each with the bitmap of the leaves that block removed, exactly as Extension::rewind does) then one or two blocks of 1..3 appends and removal of any <= 2 live leaves, then sync or discard; check_compact at any boundary with the rewind bitmap of later removals; reopen. After every step the view through PMMR::at must agree with an unpruned reference: root, size, get_data/get_hash of every live leaf, None for spent leaves, a merkle_proof for every live leaf verifying against the root, leaf_pos_iter, leaf_idx_iter(from) for every from, n_unpruned_leaves, PMMR::validate.",
 			assumptions: vec![
 				"rewinds never go below the last compaction cutoff and happen before the appends of a unit (the store's documented usage protocol)".into(),
-				"3 units of work (quick) / 4 (thorough) plus up to 2 compactions and 1 reopen anywhere in between; <= 8 / 9 leaves; removal sets of size <= 2 per block".into(),
+				"3 units of work with up to 3 appends and 9 leaves (quick) / 4 units with up to 2 appends and 7 leaves (thorough), plus up to 2 compactions and 1 reopen anywhere in between; removal sets of size <= 2 per block".into(),
 			],
 			exhaustive: true,
 		}
